@@ -9,6 +9,7 @@ pub mod iso;
 pub mod net;
 pub mod pgen;
 pub mod rvbin;
+pub mod sanitize;
 pub mod srv;
 pub mod util;
 pub mod world;
